@@ -24,7 +24,7 @@ type ClosureRace struct {
 }
 
 func runClosureRace(s ClosureRace, v *vt.V) {
-	mem := ocimem.NewWithConfig(&ocimem.Config{ImmutableTags: true})
+	var mem *ocimem.Registry
 	const imageMT, indexMT = "application/vnd.oci.image.manifest.v1+json", "application/vnd.oci.image.index.v1+json"
 	pushBlob := func(content string) ociregistry.Descriptor {
 		desc := ociregistry.Descriptor{MediaType: "application/octet-stream", Digest: digest.FromString(content), Size: int64(len(content))}
@@ -37,15 +37,19 @@ func runClosureRace(s ClosureRace, v *vt.V) {
 		return []byte(fmt.Sprintf(`{"schemaVersion":2,"mediaType":%q,"config":{"mediaType":%q,"digest":%q,"size":%d},"layers":[{"mediaType":%q,"digest":%q,"size":%d}],"annotations":{"note":%q}}`,
 			imageMT, config.MediaType, config.Digest, config.Size, layer.MediaType, layer.Digest, layer.Size, note))
 	}
-	config0, base := pushBlob(`{"base":true}`), pushBlob("base layer")
-	for i := 0; i < s.Old; i++ {
-		if _, err := mem.PushManifest(ctx, "foo", fmt.Sprintf("old%d", i), image(config0, base, fmt.Sprint("old", i)), imageMT); err != nil {
-			v.Failf("harness", "%v", err)
-			return
-		}
-	}
 	both := 0
 	for i := 0; i < s.Rounds; i++ {
+		if i%100 == 0 {
+			// a new registry now and then: every successful push adds a tagged manifest for the deletes to walk
+			mem = ocimem.NewWithConfig(&ocimem.Config{ImmutableTags: true})
+			config0, base := pushBlob(`{"base":true}`), pushBlob("base layer")
+			for j := 0; j < s.Old; j++ {
+				if _, err := mem.PushManifest(ctx, "foo", fmt.Sprintf("old%d", j), image(config0, base, fmt.Sprint("old", j)), imageMT); err != nil {
+					v.Failf("harness", "%v", err)
+					return
+				}
+			}
+		}
 		tag := fmt.Sprintf("new%d", i)
 		config, layer := pushBlob(fmt.Sprintf(`{"round":%d}`, i)), pushBlob(fmt.Sprintf("layer %d", i))
 		man, mt := image(config, layer, tag), imageMT
